@@ -255,7 +255,7 @@ def run(tier):
         extra = [
             ("correspondence: model of fmt/parsing.rs == working-tree parser on every literal", not corr_bad and lean_ok),
             ("validation: std::fmt grammar model == rustc_parse_format on every derivation", not spec_bad and lean_ok),
-            ("hypotheses `Sane` of the round-trip theorem hold for unicode-xid / char::is_whitespace (all code points): " + sane, sane == "ok"),
+            ("hypotheses `Sane` and `Sane2` of the round-trip theorems hold for unicode-xid / char::is_whitespace (all code points; the eighteen ASCII characters of `Sane2`): " + sane, sane == "ok"),
         ]
         stats = {
             "literals": len(lits), "derivations": len(derivs), "short_strings": len(short),
